@@ -45,3 +45,6 @@ pub use core::ops::RangeInclusive;
 
 // io::Error: Debug (needed by Result::<_, Error>::unwrap's trait bound; formatting is never verified)
 impl core::fmt::Debug for Error { #[verifier::external_body] fn fmt(&self, f: &mut core::fmt::Formatter<'_>) -> core::fmt::Result { unimplemented!() } }
+
+// vstd's iterator model (remaining()/decrease()/obeys_prophetic_iter_laws()) for R12 loop invariants
+pub use vstd::std_specs::iter::IteratorSpec;
